@@ -13,6 +13,7 @@ import (
 	"fmt"
 	"os"
 	"runtime"
+	"runtime/debug"
 	"strconv"
 	"strings"
 	"sync"
@@ -114,6 +115,41 @@ func goroutinesWith(fn string) int {
 	return c
 }
 
+// noneAlive: none of the library functions named in fns ("a|idle:b") has a
+// goroutine at work inside it any more.  "idle:b" also accepts goroutines
+// that sit in b at b's idle point: they have not been given anything to do.
+func noneAlive(fns string) bool {
+	for _, fn := range strings.Split(fns, "|") {
+		if !strings.HasPrefix(fn, "idle:") {
+			if goroutinesWith(fn) > 0 {
+				return false
+			}
+			continue
+		}
+		fn = strings.TrimPrefix(fn, "idle:")
+		for _, g := range parseGoroutines(allStacks()) {
+			ff, has := g.firstFrugal()
+			if !has {
+				continue
+			}
+			inside := false
+			for _, f := range g.frames {
+				if f.name == frugalPkg+fn {
+					inside = true
+				}
+			}
+			if !inside {
+				continue
+			}
+			if ff.name == fn && idleStates[fn] != "" && strings.HasPrefix(g.state, idleStates[fn]) {
+				continue
+			}
+			return false
+		}
+	}
+	return true
+}
+
 func dumpGoroutines() {
 	buf := make([]byte, 1<<22)
 	n := runtime.Stack(buf, true)
@@ -141,7 +177,7 @@ func await[T any](ch <-chan T, match func(T) bool, recvFunc string) (T, outcome)
 			continue
 		case <-t.C:
 		}
-		if recvFunc != "" && goroutinesWith(recvFunc) == 0 {
+		if recvFunc != "" && noneAlive(recvFunc) {
 			// one more look at the channel: the value may have been sent just
 			// before the goroutine went away
 			select {
@@ -151,7 +187,7 @@ func await[T any](ch <-chan T, match func(T) bool, recvFunc string) (T, outcome)
 				}
 			default:
 			}
-			return zero, outcome{"dead", recvFunc}
+			return zero, outcome{"dead", strings.Split(recvFunc, "|")[0]}
 		}
 		// logical blocked-forever condition (two looks half a second apart)
 		if id, fn, where, st, ok := lockWedge(); ok {
@@ -350,6 +386,11 @@ func runChild(args []string) int {
 	const rlimitData = 2 // RLIMIT_DATA on linux
 	syscall.Setrlimit(rlimitData, &syscall.Rlimit{Cur: lim, Max: lim})
 
+	// a quarter of the default maximum stack: runaway recursion ends in the
+	// runtime's "stack overflow" well inside the memory limit above instead of
+	// in "out of memory" (which is excluded)
+	debug.SetMaxStack(256 << 20)
+
 	run := ev.New("C05", tier, "exploration")
 	specs := specList(entry, proto, run.Thorough(), run.Rand(streamName(entry, proto)))
 	if to > len(specs) {
@@ -373,7 +414,11 @@ func runChild(args []string) int {
 			fmt.Fprintf(lg, "S %d %s\n", idx, in.Class)
 			continue
 		}
-		fmt.Fprintf(lg, "I %d %s %s %s\n", idx, in.Class, ep.mode(idx), hex.EncodeToString(in.Data))
+		logged := in.Label
+		if logged == "" {
+			logged = hex.EncodeToString(in.Data)
+		}
+		fmt.Fprintf(lg, "I %d %s %s %s\n", idx, in.Class, ep.mode(idx), logged)
 		out := ep.deliver(idx, in)
 		switch out.kind {
 		case "ok":
